@@ -180,8 +180,7 @@ def finish (st : St) : List String :=
       match serShape heapFn fuel acc.1 s with
       | .ok (_, ids) => (ids, acc.2 + (s.vars.filter fun v => (posOf ids v.1).isNone).length)
       | .error _ => acc) ([], 0)).2
-    let out := out ++ [if anyRemap then s!"skip serlog {tag} remap"
-      else if st.serlog.length == missing then s!"ok serlog {tag}"
+    let out := out ++ [if st.serlog.length == missing then s!"ok serlog {tag}"
       else s!"MISMATCH serlog {tag} model= {missing} real= {st.serlog}"]
     -- hypotheses of archive_roundtrip on the real data
     let bare := st.shapes.toList.map fun s => { s with vars := [] }
